@@ -174,6 +174,7 @@ Ltac rng_one_split E HR :=
   cbn [app] in E; rewrite open_state in E;
   erewrite exec_cons in E by (eapply step_call; [reflexivity | cbn [mapM sto]; rewrite (arr_val_here _ _ _ HR); reflexivity]);
   erewrite exec_cons in E by (eapply step_call; [reflexivity | cbn [mapM sto alloc]; rewrite (arr_val_old _ _ _ _ HR); reflexivity]);
+  erewrite exec_cons in E by (eapply step_call; reflexivity);
   try match type of E with exec (?c :: ?rest) _ = _ => change (c :: rest) with ([c] ++ rest) in E end;
   rewrite agg_finish_split, !app_assoc in E;
   match type of E with exec (?mid ++ _) ?σ1 = Some ?σ' =>
@@ -183,9 +184,10 @@ Ltac rng_one_split E HR :=
     [ unfold mean_step; wf_tac
     | unfold mean_step; keeps_tac
     | reflexivity
-    | cbn [sto alloc]; rewrite <- app_assoc; cbn [app]; rewrite nth_error_app2 by lia; rewrite Nat.sub_diag; reflexivity
-    | cbn [ven alloc sto]; intros k0 l H; cbn in H; destruct (Nat.eqb k0 21); [|discriminate];
-      inversion H; subst; rewrite app_length; cbn; lia
+    | cbn [sto alloc]; rewrite <- !app_assoc; cbn [app]; rewrite nth_error_app2 by lia; rewrite Nat.sub_diag; reflexivity
+    | cbn [ven alloc sto]; intros k0 l H; cbn in H; rewrite ?app_length in H; cbn in H;
+      destruct (Nat.eqb k0 24); [inversion H; subst; lia|]; destruct (Nat.eqb k0 21); [|discriminate];
+      inversion H; subst; lia
     | exists ns, nb, (length s); auto ]
   end.
 
@@ -206,6 +208,7 @@ Proof.
   erewrite exec_cons in E by (eapply step_call; [reflexivity | cbn [mapM sto alloc]; rewrite (proj2 (H6 _ [] [])); reflexivity]).
   erewrite exec_cons in E by (eapply step_call; [reflexivity |
      cbn [mapM sto alloc]; rewrite <- (app_nil_r [CArr (VApp F_SPLIT0 (vlist [split0 k])) false]); rewrite (proj1 (H6 _ _ [])); reflexivity]).
+  erewrite exec_cons in E by (eapply step_call; reflexivity).
   rewrite agg_finish_split, !app_assoc in E.
   match type of E with exec (?mid ++ _) ?σ1 = _ =>
     assert (FL := fun W KP L5 C5 OA => finish_lemma mid σ1 σ' (S (S (length s))) (CArr (split0 (split0 k)) false) W KP L5 C5 OA E) end.
@@ -216,6 +219,7 @@ Proof.
   - cbn [sto alloc]. rewrite <- !app_assoc. cbn [app]. rewrite nth_error_app2 by lia.
     replace (S (S (length s)) - length s) with 2 by lia. reflexivity.
   - cbn [ven alloc sto]. intros k0 l H. cbn in H. rewrite !app_length in H. cbn in H.
+    destruct (Nat.eqb k0 24); [inversion H; subst; lia|].
     destruct (Nat.eqb k0 21); [inversion H; subst; lia|]. destruct (Nat.eqb k0 27); [inversion H; subst; lia | discriminate].
   - exists ns, nb, (S (S (length s))). auto.
 Qed.
